@@ -63,7 +63,7 @@ type stepSpec struct {
 
 // one event of a history; everything needed to replay it is in here
 type event struct {
-	K   string `json:"k"` // region create add addw promote hb push remove deliver drop foreign age slow poke influence vanish pollgone
+	K   string `json:"k"` // region create add addw promote hb push remove deliver drop foreign age slow poke influence vanish pollgone break rebind (FStore)
 	Rid uint64 `json:"rid,omitempty"`
 	ID  int    `json:"id,omitempty"`
 	IDs []int  `json:"ids,omitempty"`
@@ -135,6 +135,7 @@ func newWorld(c *caseIn, rec *tikvsim.Recorder) *world {
 			_, _ = tc.AllocID() // allocated peer ids start above the store ids
 		}
 	}
+	rec.Reset()
 	rec.Collect() // nothing of an earlier case may leak into this one
 	return &world{c: c, tc: tc, oc: schedule.NewOperatorController(ctx, tc, rec.HB), rec: rec, cancel: cancel,
 		sims: map[uint64]*tikvsim.Sim{}, history: map[uint64][]*core.RegionInfo{}, opID: map[*operator.Operator]int{},
@@ -317,6 +318,14 @@ func (w *world) exec(e event) (string, obs) {
 		}
 	}
 	switch e.K {
+	case "break":
+		w.rec.Break(e.FStore)
+		return "EBreak " + coqfmt.ZU(e.FStore), obs{Res: -1}
+	case "rebind":
+		// everything the store's new stream receives on its own is part of the observation
+		got := w.rec.Rebind(e.FStore)
+		got = append(got, w.collect()...)
+		return "ERebind " + coqfmt.ZU(e.FStore), obs{Res: -1, Sent: got}
 	case "influence":
 		w.oc.GetOpInfluence(w.tc)
 		return "EInfluence", obs{Res: -1}
@@ -1037,6 +1046,66 @@ func runCase(rec *tikvsim.Recorder, c *caseIn, r *rng.R, mode string, maxEvents 
 					}
 				}
 			}
+		} else if mode == "rebind" {
+			// a store's heartbeat stream breaks while commands are pushed for an operator; the region moves on (leader
+			// transferred, configuration changed by somebody else, operator cancelled or removed); the store binds a new
+			// stream. Whatever that stream receives is observed.
+			rid := w.rids[0]
+			create(rid)
+			if n := len(w.ops); n > 0 && w.ops[n-1] != nil {
+				id := n
+				leaderStore := func() uint64 { return w.sims[rid].Leader.GetStoreId() }
+				broke := leaderStore()
+				rounds := func(k int) {
+					for ; k > 0; k-- {
+						for len(w.inbox) > 0 {
+							do(event{K: "deliver", Rid: rid})
+						}
+						do(event{K: "hb", Rid: rid})
+					}
+				}
+				if r.Pct(65) {
+					do(event{K: "break", FStore: broke})
+					do(event{K: "add", IDs: []int{id}})
+				} else {
+					do(event{K: "add", IDs: []int{id}})
+					rounds(r.Intn(3))
+					broke = leaderStore()
+					do(event{K: "break", FStore: broke})
+					do(event{K: "push", Rid: rid})
+				}
+				if r.Pct(30) {
+					do(event{K: "push", Rid: rid})
+				}
+				// the region moves on
+				for k := 1 + r.Intn(2); k > 0; k-- {
+					switch r.Pick(45, 35, 20) {
+					case 0:
+						var vs []uint64
+						for _, p := range w.sims[rid].Meta.Peers {
+							if p.Role == metapb.PeerRole_Voter && p.StoreId != leaderStore() {
+								vs = append(vs, p.StoreId)
+							}
+						}
+						if len(vs) > 0 {
+							do(event{K: "foreign", Rid: rid, F: "transfer", FStore: vs[r.Intn(len(vs))]})
+						}
+					case 1:
+						do(genForeignAddLearner(r, w, rid))
+					case 2:
+						do(genForeign(r, w, rid))
+					}
+				}
+				switch r.Pick(60, 20, 20) {
+				case 0:
+					rounds(1 + r.Intn(2))
+				case 1:
+					do(event{K: "remove", ID: id})
+				case 2:
+				}
+				do(event{K: "rebind", FStore: broke})
+				rounds(r.Intn(3))
+			}
 		} else if mode == "walk" {
 			// walks over the status matrix of real Operators: direct method calls interleaved with controller calls
 			rid := w.rids[0]
@@ -1072,7 +1141,11 @@ func runCase(rec *tikvsim.Recorder, c *caseIn, r *rng.R, mode string, maxEvents 
 			n := 8 + r.Intn(maxEvents-8)
 			for len(evs) < n {
 				rid := pickRid()
-				switch r.Pick(16, 14, 6, 2, 18, 14, 3, 5, 4, 8, 3, 3, 5, 3) {
+				switch r.Pick(16, 14, 6, 2, 18, 14, 3, 5, 4, 8, 3, 3, 5, 3, 2, 3) {
+				case 14:
+					do(event{K: "break", FStore: uint64(1 + r.Intn(nStores))})
+				case 15:
+					do(event{K: "rebind", FStore: uint64(1 + r.Intn(nStores))})
 				case 12:
 					if id := anyOp(); id != 0 {
 						do(genPoke(r, id))
@@ -1164,7 +1237,8 @@ func main() {
 		"Dispatch(heartbeat) / Dispatch(push) / RemoveOperator, commands executed (or dropped) by tikvsim, foreign changes (incl. the shadow scenario: " +
 		"the operator's command is lost, somebody else changes the region and then issues that very command), direct calls of the Operator's " +
 		"exported status methods (walks over the status matrix), GetOpInfluence, regions merged away under a running operator and the push loop's " +
-		"region-disappeared branch (real PushOperators), expiry and timeout by " +
+		"region-disappeared branch (real PushOperators), heartbeat streams that break (Send fails) and stores that bind a new stream while the region " +
+		"moves on (everything any stream receives is observed), expiry and timeout by " +
 		"back-dated reach times; non-trivial = some operator started, some command was applied and some operator ended; distinct by sha256 of the case text"
 	cf := &coqfmt.CaseFile{Dir: *out, Prefix: "C09", PerFile: 100,
 		Header: "From Coq Require Import String.\nFrom PDV Require Import lib.Base model.C08_Steps model.C09_OpCtl.\nLocal Open Scope string_scope.\nLocal Open Scope list_scope.\nLocal Open Scope Z_scope.\n",
@@ -1257,7 +1331,9 @@ func main() {
 				c.MaxWaiting = 1 + r.Intn(2)
 			}
 			mode := "lifecycle"
-			switch r.Pick(36, 34, 13, 9, 8) {
+			switch r.Pick(30, 34, 13, 9, 8, 6) {
+			case 5:
+				mode = "rebind"
 			case 4:
 				mode = "vanish"
 			case 3:
